@@ -1,6 +1,7 @@
 import OpenFecVerif.Props.C02
 import OpenFecVerif.Props.C03
 import OpenFecVerif.Proofs.MLSound
+import OpenFecVerif.Proofs.RoundTrip
 /-!
 # C01 — decoders never hand back a wrong source symbol
 
@@ -75,6 +76,20 @@ theorem C01_ldpc_session_sound {σ : Type} (IO : Api.SymIO σ) (p : Api.Params) 
     ∃ it', (MLSound.runDec IO p sent s ops).it = some it' ∧ ∀ e v, it'.sym.get e = some v → v = sent e := by
   obtain ⟨it', h1, h2⟩ := MLSound.runDec_sound IO p sent hO ops s it hit inv hcw
   exact ⟨it', h1, h2.sym_ok⟩
+
+/-- **Round trip (encoder model + decoder model).**  For a staircase-shaped, duplicate-free system of equations (every matrix the RFC 5170
+construction returns is one, `C05_matrix_wf`; every accepted 2D shape is one, C16), let the block be the encoder's output on `src`.  After
+any sequence of submissions of symbols of that block (any subset, any order, duplicates, either API) and `of_finish_decoding` calls, every
+source symbol the decoder session holds is the corresponding symbol of `src`.  `V` is any group in which every element is its own
+opposite (byte strings of one length under XOR). -/
+theorem C01_ldpc_roundtrip {V : Type} [AddCommGroup V] (h2 : ∀ v : V, v + v = 0) (IO : Api.SymIO V) (p : Api.Params)
+    (hops : IO.ops 3 p.m p.len = grpOps V) (s : Api.Session V) (it : IT.St V) (hit : s.it = some it) (hHlen : s.H.length = p.r)
+    (hwf : ∀ row ∈ s.H, row.Nodup ∧ ∀ e ∈ row, e < p.k + s.H.length) (hst : Api.stairCheck p.k s.H = true) (src : List V)
+    (hs : src.length = p.k)
+    (inv : ITSound.VInv (grpOps V) (fun e => (Api.ldpcEncode (grpOps V) p.k s.H src).getD e 0) it) (ops : List MLSound.DecOp) :
+    ∃ it', (MLSound.runDec IO p (fun e => (Api.ldpcEncode (grpOps V) p.k s.H src).getD e 0) s ops).it = some it' ∧
+      ∀ e v, e < p.k → it'.sym.get e = some v → v = src.getD e 0 :=
+  RoundTrip.ldpc_roundtrip h2 IO p hops s it hit hHlen hwf hst src hs inv ops
 
 -- non-vacuity: the byte-string XOR operations are lawful on symbols of one length is assumed (`Gauss.Lawful`); the invariant's
 -- premises are met by a concrete block: equation [0,1,2] over Bool symbols with the block (true, true, false)
